@@ -48,6 +48,9 @@ pub struct Config {
     pub max_steps: u64,
     /// recorded decision list to follow; when exhausted (or diverged) fall back to the strategy
     pub replay: Option<Vec<TaskId>>,
+    /// probability (per mille, per bounded-channel send outside a timeout) of yielding to the simulator
+    /// between the send's slot reservation and its push (see `mpsc_shim`); drawn from a stream of its own
+    pub split_send_permille: u32,
 }
 
 #[derive(Clone, Debug, Default)]
@@ -57,6 +60,8 @@ pub struct Report {
     pub ready_hashes: Vec<u32>,
     pub steps: u64,
     pub spurious_fired: u64,
+    /// sends that yielded between reservation and push
+    pub sends_split: u64,
     pub context_switches: u64,
     pub tasks_spawned: u32,
     /// set when a recorded decision could not be followed
@@ -99,6 +104,8 @@ impl Rng {
 struct State {
     cfg: Config,
     rng: Rng,
+    split_rng: Rng,
+    in_timeout: u32,
     next_id: TaskId,
     live: BTreeSet<TaskId>,
     ready: Vec<TaskId>,
@@ -140,6 +147,8 @@ pub fn install(cfg: Config) {
             }
         }
         *b = Some(State {
+            split_rng: Rng(cfg.seed ^ 0x5EED_0F5E_4D5E_0002),
+            in_timeout: 0,
             rng,
             next_id: 0,
             live: BTreeSet::new(),
@@ -504,6 +513,47 @@ pub async fn run_until_quiescent() -> Quiescence {
         }
     })
     .await
+}
+
+/// Should the bounded-channel send that has just reserved its slot yield before it pushes?
+pub fn split_this_send() -> bool {
+    with(|s| {
+        if s.cfg.split_send_permille == 0 || s.in_timeout > 0 || s.running.is_none() {
+            return false;
+        }
+        let p = s.cfg.split_send_permille;
+        let hit = s.split_rng.chance(p);
+        if hit {
+            s.rep.sends_split += 1;
+        }
+        hit
+    })
+    .unwrap_or(false)
+}
+
+/// Marks the polls of the future inside `tokio::time::timeout`.
+pub struct InTimeout<F> {
+    inner: F,
+}
+impl<F> InTimeout<F> {
+    pub fn new(inner: F) -> Self {
+        InTimeout { inner }
+    }
+}
+impl<F: Future> Future for InTimeout<F> {
+    type Output = F::Output;
+    fn poll(self: Pin<&mut Self>, cx: &mut Context<'_>) -> Poll<F::Output> {
+        struct Leave;
+        impl Drop for Leave {
+            fn drop(&mut self) {
+                with(|s| s.in_timeout = s.in_timeout.saturating_sub(1));
+            }
+        }
+        with(|s| s.in_timeout += 1);
+        let _leave = Leave;
+        let inner = unsafe { self.map_unchecked_mut(|s| &mut s.inner) };
+        inner.poll(cx)
+    }
 }
 
 /// Cooperative yield for harness-owned code: Pending once, woken immediately.
